@@ -778,6 +778,20 @@ func (r *Round) getFinalizingState() FinalizingState {
 
 // Clone do light copy of round
 func (r *Round) Clone() RoundI {
+	// snapshot of the embedded timeout counter under its own mutex; taken and released before
+	// r.mutex so that no lock of the round is acquired while another one is held
+	r.timeoutCounter.mutex.RLock()
+	var (
+		tcPrrs  = r.timeoutCounter.prrs
+		tcPerm  = r.timeoutCounter.perm
+		tcCount = r.timeoutCounter.count
+		tcVotes = make(map[string]int, len(r.timeoutCounter.votes))
+	)
+	for k, v := range r.timeoutCounter.votes {
+		tcVotes[k] = v
+	}
+	r.timeoutCounter.mutex.RUnlock()
+
 	r.mutex.RLock()
 	defer r.mutex.RUnlock()
 
@@ -802,25 +816,28 @@ func (r *Round) Clone() RoundI {
 		shares[k] = s.Clone()
 	}
 
-	return &Round{
+	clone := &Round{
 		Number:           r.Number,
-		RandomSeed:       r.RandomSeed,
+		RandomSeed:       r.GetRandomSeed(),
 		Block:            r.Block.Clone(),
 		BlockHash:        r.BlockHash,
 		VRFOutput:        r.VRFOutput,
 		minerPerm:        mp,
-		phase:            r.phase,
+		phase:            r.getState(),
 		finalizingState:  r.finalizingState,
 		proposedBlocks:   pblocks,
 		notarizedBlocks:  nblocks,
 		shares:           shares,
-		softTimeoutCount: r.softTimeoutCount,
-		vrfStartTime:     r.vrfStartTime,
+		softTimeoutCount: int32(r.GetSoftTimeoutCount()),
 		timeoutCounter: timeoutCounter{
-			prrs:  r.timeoutCounter.prrs,
-			perm:  r.timeoutCounter.perm,
-			count: r.timeoutCounter.count,
-			votes: r.timeoutCounter.votes,
+			prrs:  tcPrrs,
+			perm:  tcPerm,
+			count: tcCount,
+			votes: tcVotes,
 		},
 	}
+	if t := r.vrfStartTime.Load(); t != nil {
+		clone.vrfStartTime.Store(t)
+	}
+	return clone
 }
